@@ -223,6 +223,23 @@ class _Fold:
                     for v in dd.values():
                         tot = tot + v
                     return tot
+            # sum(frac for nuc, frac in self.massFrac.items() if nuc != "X"): everything set so far except X
+            if isinstance(a, (ast.GeneratorExp, ast.ListComp)) and len(a.generators) == 1:
+                g = a.generators[0]
+                if isinstance(g.iter, ast.Call) and call_attr(g.iter) == "items" and norm(g.iter.func.value) == "self.massFrac" and isinstance(g.target, ast.Tuple) and len(g.target.elts) == 2 \
+                        and norm(a.elt) == norm(g.target.elts[1]) and len(g.ifs) <= 1:
+                    excl = None
+                    if g.ifs:
+                        t = g.ifs[0]
+                        if isinstance(t, ast.Compare) and len(t.ops) == 1 and isinstance(t.ops[0], ast.NotEq) and norm(t.left) == norm(g.target.elts[0]) and const_str(t.comparators[0]) is not None:
+                            excl = const_str(t.comparators[0])
+                        else:
+                            return None
+                    tot = Rat(0)
+                    for k, v in self.mf.items():
+                        if k != excl:
+                            tot = tot + v
+                    return tot
         return None
 
     def val(self, e):
